@@ -831,6 +831,22 @@ Section T.
     - intros i Hp. apply Hocc'. split; [apply (c_pin _ HC); exact Hp|]. intros (_ & _ & Hp'). congruence.
   Qed.
 
+  (* "Storage is full" arises only when every cell 1 .. cap-1 is occupied; no cell is written (no table is returned) *)
+  Lemma alloc_full t : AInv t -> alloc t = Full ->
+    last_index t + 1 = cap t /\ real_size t = last_index t /\ forall k, 1 <= k < cap t -> occupied t k.
+  Proof.
+    intros HA H. unfold alloc in H. destruct HA.
+    destruct (scan t (N.to_nat (last_index t + 1 - min_free t)) (min_free t)) as [j|] eqn:Hs.
+    - apply scan_some in Hs. destruct Hs as (Hj & _). destruct (N.leb_spec (cap t) j); [lia|discriminate].
+    - pose proof (scan_none _ _ _ Hs (le_n _)) as Hocc.
+      destruct (N.leb_spec (cap t) (last_index t + 1)) as [Hc|]; [|discriminate].
+      assert (Hall : forall k, 1 <= k <= last_index t -> occupied t k).
+      { intros k Hk. destruct (N.lt_ge_cases k (min_free t)); [apply a_below0; lia|apply Hocc; lia]. }
+      split; [lia|]. split.
+      + rewrite a_count0. rewrite cnt_full; [lia|]. intros i Hi. apply Hall. lia.
+      + intros k Hk. apply Hall. lia.
+  Qed.
+
   (* ---------- C06: the high-water mark is the peak number of simultaneously stored cells ---------- *)
   Definition Peak (t : table) (p : N) : Prop := last_index t = p /\ real_size t <= p.
   Lemma cnt_lt d n i : 1 <= i <= N.of_nat n -> occ (tget d i) = false -> cnt d n < N.of_nat n.
